@@ -45,7 +45,7 @@ NO_PANIC_EXACT = {
     "<std::result::Result<T, F> as std::ops::FromResidual<std::result::Result<std::convert::Infallible, E>>>::from_residual",
     "<I as std::iter::IntoIterator>::into_iter", "core::slice::iter::<impl std::iter::IntoIterator for &'a mut [T]>::into_iter", "core::slice::iter::<impl std::iter::IntoIterator for &'a [T]>::into_iter",
     "std::iter::Iterator::take_while", "std::iter::Iterator::count", "std::iter::Iterator::map", "std::iter::Iterator::filter", "std::iter::Iterator::rev", "std::iter::Iterator::take", "std::iter::Iterator::chain", "std::iter::Iterator::all", "std::iter::Iterator::any", "std::iter::Iterator::position", "std::iter::Iterator::collect", "std::iter::Iterator::copied", "std::iter::Iterator::cloned", "std::iter::Iterator::fold", "std::iter::Iterator::last", "std::iter::Iterator::nth", "std::iter::Iterator::sum", "std::iter::Iterator::find", "std::iter::Iterator::by_ref",
-    "core::slice::<impl [T]>::first", "core::slice::<impl [T]>::last", "core::slice::<impl [T]>::get", "core::slice::<impl [T]>::get_mut", "core::slice::<impl [T]>::split_first", "core::slice::<impl [T]>::starts_with", "core::slice::<impl [T]>::ends_with", "core::slice::<impl [T]>::contains", "core::slice::<impl [T]>::reverse", "core::slice::<impl [T]>::fill", "core::slice::<impl [T]>::to_vec", "core::slice::<impl [T]>::as_ptr",
+    "core::slice::<impl [T]>::first", "core::slice::<impl [T]>::last", "core::slice::<impl [T]>::get", "core::slice::<impl [T]>::get_mut", "core::slice::<impl [T]>::split_first", "core::slice::<impl [T]>::split_first_mut", "core::slice::<impl [T]>::split_last", "core::slice::<impl [T]>::split_last_mut", "core::slice::<impl [T]>::starts_with", "core::slice::<impl [T]>::ends_with", "core::slice::<impl [T]>::contains", "core::slice::<impl [T]>::reverse", "core::slice::<impl [T]>::fill", "core::slice::<impl [T]>::to_vec", "core::slice::<impl [T]>::as_ptr",
     "std::option::Option::<T>::map", "std::option::Option::<T>::map_or", "std::option::Option::<T>::is_some", "std::option::Option::<T>::is_none", "std::option::Option::<T>::unwrap_or", "std::option::Option::<T>::unwrap_or_default", "std::option::Option::<T>::ok_or", "std::result::Result::<T, E>::map", "std::result::Result::<T, E>::map_err", "std::result::Result::<T, E>::is_ok", "std::result::Result::<T, E>::is_err", "std::result::Result::<T, E>::ok", "std::result::Result::<T, E>::and_then",
     "std::iter::Iterator::enumerate", "std::iter::Iterator::zip", "std::iter::Iterator::skip", "std::iter::Iterator::cycle", "std::iter::Iterator::for_each", "std::iter::Iterator::next",
     "core::slice::<impl [T]>::iter", "core::slice::<impl [T]>::iter_mut", "core::slice::<impl [T]>::len", "core::slice::<impl [T]>::is_empty",
@@ -59,7 +59,7 @@ NO_PANIC_EXACT = {
     "std::slice::<impl [T]>::to_vec", "std::vec::Vec::<T, A>::len",
     # growth panics only on capacity overflow (> isize::MAX bytes), unreachable before allocation failure (out of scope)
     "core::bool::<impl bool>::then", "core::bool::<impl bool>::then_some", "std::option::Option::<T>::ok_or_else", "std::option::Option::<T>::unwrap_or_else", "std::option::Option::<T>::map_or_else", "std::option::Option::<T>::and_then", "std::option::Option::<T>::filter", "std::option::Option::<T>::copied", "std::result::Result::<T, E>::map_or", "std::result::Result::<T, E>::unwrap_or", "std::result::Result::<T, E>::unwrap_or_else", "std::result::Result::<T, E>::or_else",
-    "std::mem::size_of", "core::mem::size_of", "std::vec::Vec::<T>::new", "std::vec::Vec::<T, A>::extend_from_slice", "std::vec::Vec::<T, A>::push", "std::vec::Vec::<T, A>::as_slice", "std::vec::Vec::<T, A>::is_empty",
+    "std::mem::replace", "core::mem::replace", "std::mem::take", "core::mem::take", "std::mem::swap", "core::mem::swap", "std::array::from_fn", "core::array::from_fn", "std::iter::ExactSizeIterator::len", "std::mem::size_of", "core::mem::size_of", "std::vec::Vec::<T>::new", "std::vec::Vec::<T, A>::extend_from_slice", "std::vec::Vec::<T, A>::push", "std::vec::Vec::<T, A>::as_slice", "std::vec::Vec::<T, A>::is_empty",
     "<digest::generic_array::GenericArray<T, N> as std::ops::Deref>::deref", "<std::vec::Vec<T, A> as std::ops::Deref>::deref", "<std::vec::Vec<T, A> as std::ops::DerefMut>::deref_mut",
     "std::clone::Clone::clone", "std::default::Default::default",
 }
@@ -133,6 +133,10 @@ def check(ctx, rep):
     clo = closure(ctx, roots)
     rep.stats["closure"] = len(clo)
     r32_sinks = set(COPY_SITES) | {p for p in fb.bodies if p.endswith("as std::convert::From<bigint::Integer>>::from") and p.startswith("<key::")}
+    # any other function that IS a fixed-width zero-padding copy of its big-integer parameter
+    # (e.g. a shared helper the sites above delegate to) is a sink as well
+    from rules import c01 as _c01
+    r32_sinks |= {p for p in fb.bodies if _c01.padder_width(ctx, p) is not None}
     for p in sorted(clo):
         b = fb.bodies[p]
         if b.derived() or b.kind == "Promoted":
@@ -320,7 +324,7 @@ def call_obligation(ctx, rep, world, pr, p, b, bi, t, info, n_site, r32_sinks):
             ok, just = ksa_premise(ctx)
         rep.check(ok, "swap", p, "swap#%d" % seq, "indices [%s,%s], [%s,%s] < len %s %s" % (ra[0], ra[1], rb[0], rb[1], ln[0], just), "swap index may be out of bounds: [%s,%s] / [%s,%s] vs length [%s,%s]" % (ra[0], ra[1], rb[0], rb[1], ln[0], ln[1]), b.loc(bi))
         return
-    if short in ("chunks_exact", "chunks", "windows") and "slice" in name:
+    if short in ("chunks_exact", "chunks", "windows", "chunks_exact_mut", "chunks_mut", "rchunks", "rchunks_exact") and "slice" in name:
         ok, why = pr.prove_nonzero(args[1], bi)
         rep.check(ok, "step-by", p, "%s#%d" % (short, seq), "chunk size " + why, "%s(0) would panic: %s" % (short, why), b.loc(bi))
         return
@@ -370,6 +374,10 @@ def call_obligation(ctx, rep, world, pr, p, b, bi, t, info, n_site, r32_sinks):
     if t.get("callee") in ("std::iter::Iterator::next", "std::ops::Deref::deref", "std::ops::DerefMut::deref_mut", "std::convert::From::from", "std::default::Default::default", "std::clone::Clone::clone"):
         return
     if t["target"] is None:
+        dead, why_dead = pr.infeasible(bi)
+        if dead:
+            rep.ok("bounds", p, "diverging-call#%d" % seq, "unreachable: " + why_dead, b.loc(bi))
+            return
         rep.violation("bounds", p, "diverging-call#%d" % seq, "explicit panic path: call to %s never returns" % name, b.loc(bi))
         return
     rep.undecided("bounds", p, "call:%s#%d" % (name[:60], seq), "call to %s is outside the modelled / allow-listed set" % name, b.loc(bi))
@@ -456,6 +464,16 @@ def reduced32(ctx, rep, sinks, clo):
                         w = fb.ty(fs[0]["ty"]).len if fs and len(fs) == 1 else (ty.len if ty.k == "array" else None)
                         ok = w == 32
                         why = "value is reduced modulo a 32-byte modulus parameter"
+            if ok:
+                # a value below a 32-byte modulus fits only a copy site of at least 32 bytes
+                from rules import c01 as _c01
+                w_ = _c01.padder_width(ctx, sink)
+                if w_ is None and sink.endswith(">::from"):
+                    fs_ = fb.adt_fields(sink[1:].split(" as ")[0])
+                    w_ = fb.ty(fs_[0]["ty"]).len if fs_ else None
+                if w_ is not None and w_ < 32:
+                    ok = False
+                    why = "a value below a 32-byte modulus is copied into a %d-byte array" % w_
             seen_sites += 1
             rep.check(ok, "reduced32", b.path, "->" + sink.replace("std::convert::From<bigint::Integer>", "From")[:70], why, "a value that is not provably reduced modulo a 32-byte modulus is copied into a fixed 32-byte array: " + why, b.loc(bi))
     # big-integer preconditions (modpow: exponent >= 0, modulus != 0; %: divisor != 0) at the formula level
